@@ -21,6 +21,19 @@
 (*                    ; the unescaped quoted-string must be a token        *)
 (* with optional white space around "," ";" "=" (RFC 2616 implied LWS,     *)
 (* under which RFC 6455 states its grammar).                               *)
+(*                                                                         *)
+(* Two levels of well-formedness are distinguished for extension lists:    *)
+(*   lexical (RFC 7230)  every element is token *( ";" token [ "=" ( token *)
+(*            / quoted-string ) ] ) with a well-formed quoted-string       *)
+(*            (qdtext and quoted-pairs between two DQUOTEs).  What is      *)
+(*            inside a quoted-string is NEVER a list element or a          *)
+(*            parameter, whatever it contains (commas, semicolons, "=",    *)
+(*            escaped quotes, the text "permessage-deflate"): the          *)
+(*            extensions offered by such a field are fully determined.     *)
+(*   RFC 6455 9.1        additionally every unescaped quoted value is a    *)
+(*            token (field `nontok` of Extensions is FALSE).               *)
+(* Only a field that is not even lexically well-formed (`mal`) leaves the  *)
+(* set of offered extensions open.                                         *)
 (***************************************************************************)
 EXTENDS Integers, Sequences, FiniteSets
 
@@ -144,13 +157,13 @@ PParam(s, i) ==
              LET j3 == SkipOWS(s, j2 + 1) IN
              IF j3 <= Len(s) /\ s[j3] = DQUOTE THEN
                   LET q == QScan(s, j3 + 1, << >>) IN
-                  IF q.ok /\ IsToken(q.val)
-                  THEN [ok |-> TRUE, nxt |-> q.nxt, p |-> [k |-> k, v |-> q.val, hasv |-> TRUE]]
+                  IF q.ok
+                  THEN [ok |-> TRUE, nxt |-> q.nxt, p |-> [k |-> k, v |-> q.val, hasv |-> TRUE, tokv |-> IsToken(q.val)]]
                   ELSE Fail(j3)
              ELSE LET j4 == TokEnd(s, j3) IN
                   IF j4 = j3 THEN Fail(j3)
-                  ELSE [ok |-> TRUE, nxt |-> j4, p |-> [k |-> k, v |-> SubSeq(s, j3, j4 - 1), hasv |-> TRUE]]
-          ELSE [ok |-> TRUE, nxt |-> j, p |-> [k |-> k, v |-> << >>, hasv |-> FALSE]]
+                  ELSE [ok |-> TRUE, nxt |-> j4, p |-> [k |-> k, v |-> SubSeq(s, j3, j4 - 1), hasv |-> TRUE, tokv |-> TRUE]]
+          ELSE [ok |-> TRUE, nxt |-> j, p |-> [k |-> k, v |-> << >>, hasv |-> FALSE, tokv |-> TRUE]]
 
 (* *( ";" extension-param ), i after the extension token or a parameter.   *)
 RECURSIVE PParams(_, _, _)
@@ -180,14 +193,18 @@ PExtList(s, i, acc, empties) ==
 ExtLine(s) == PExtList(s, 1, << >>, 0)
 
 (* The extension offers / announcements of a header field.  mal = some     *)
-(* line does not match the (recipient) grammar; the content of such a      *)
-(* field is not asserted.                                                  *)
+(* line does not match the lexical (recipient) grammar; the content of     *)
+(* such a field is not asserted.  nontok = some quoted parameter value is  *)
+(* not a token after unescaping (RFC 6455 9.1 forbids it; the extension    *)
+(* NAMES of the field are nevertheless determined).                        *)
 RECURSIVE ExtsOf(_)
 ExtsOf(lines) == IF lines = << >> THEN << >>
                  ELSE ExtLine(Head(lines)).exts \o ExtsOf(Tail(lines))
 Extensions(lines) ==
-  [mal  |-> \E i \in 1..Len(lines) : ~ExtLine(lines[i]).ok,
-   exts |-> ExtsOf(lines)]
+  LET es == ExtsOf(lines) IN
+  [mal    |-> \E i \in 1..Len(lines) : ~ExtLine(lines[i]).ok,
+   nontok |-> \E i \in 1..Len(es) : \E j \in 1..Len(es[i].params) : ~es[i].params[j].tokv,
+   exts   |-> es]
 
 HasParam(e, k) == \E i \in 1..Len(e.params) : e.params[i].k = k
 HasExt(x, name) == \E i \in 1..Len(x.exts) : x.exts[i].name = name
